@@ -6,6 +6,7 @@ func init() {
 	register(&Spec{
 		ID: "C04",
 		Explanation: "Decides: R1 the method summary is rebuilt after every change of a handler map's key set; R2 the automatic OPTIONS/405 handlers are stored on, and stay with, the node object they were built for (a handler map never moves to another node object); R3 every summary is computed by a summary builder (TRACE clause under hasTrace, memo entry rendered) or is followed by one; R4 every removing entry point updates the tree-wide summary, and decrements come from keys actually removed; R5 summary/rendering conformance (one bit per method, builder ranges over all keys, renderer keeps exactly the set bits, Allow/Methods()/Routes() read one memo entry). " +
+			"R16 every method of the table except the automatic entries, named in Remove's list, reaches the deletion of its entry. " +
 			"Not decided: the arithmetic of the tree-wide counters for arbitrary histories.",
 		Assumptions: commonAssumptions,
 		Run: func(c *Ctx) {
@@ -27,6 +28,8 @@ func init() {
 			ruleOnlyKnownConstantKeys(c, "R13")
 			ruleRootMappedPathsAreNotPatterns(c, "R14")
 			ruleSummaryReadOnlyOfLiveNodes(c, "R15")
+			ruleOnlyAutomaticKeysAreKeptOnRemove(c, "R16")
+			ruleReportedRoute(c, "R17")
 		},
 	})
 	register(&Spec{
@@ -49,11 +52,14 @@ func init() {
 			ruleAmbiguitySearchDiscipline(c, "R8", "R9")
 			ruleAmbiguitySkipIsTextLength(c, "R10")
 			ruleRegexpSplitOnRuneBoundary(c, "R11")
+			ruleParameterNamesAreRemembered(c, "R12")
+			ruleNameCleaned(c, "R13")
 		},
 	})
 	register(&Spec{
 		ID: "C08",
 		Explanation: "Decides: R1 HEAD is installed with every GET install from the same handler value and middleware list; R2 HEAD is deleted with GET; R3 HEAD/OPTIONS/405 entries cannot be deleted by name; R4 validation (reserved names, method table membership, TRACE iff configured) dominates every install of a caller-supplied key; R5 the HEAD response writer swallows the body, counts it into Content-Length and exposes no bypass; R6/R7 OPTIONS is answered for every live pattern and cannot disappear while another method remains (every install is accompanied by the OPTIONS and 405 entries; they are deleted only together, when nothing else is left). " +
+			"R11 (= C04.R16) Remove passes over automatic entries only. " +
 			"Not decided: equality of all other headers and of the status between HEAD and GET for arbitrary handlers.",
 		Assumptions: commonAssumptions,
 		Run: func(c *Ctx) {
@@ -67,6 +73,8 @@ func init() {
 			ruleRecoveryWriterIsCurrent(c, "R8")
 			ruleHasTraceIsNonNil(c, "R9")
 			ruleFacadeRemovals(c, "R10")
+			ruleOnlyAutomaticKeysAreKeptOnRemove(c, "R11")
+			ruleSameTypedSlotsAreNotCrossed(c, "R12")
 		},
 	})
 }
